@@ -15,7 +15,8 @@ EXPLANATION = (
     "Some(out_dir): set_extension(\"pn.ll\") < create_dir_all < fs::write(outputpath, ir) where ir is that iteration's "
     "generate_ir() result; R5 StdOut: every method that writes to self.stdout starts with the `is_silent` early return "
     "which dominates every write, and progress chatter is additionally under is_verbose; ColorChoice/CharSet tables "
-    "map options to termcolor/ariadne one-to-one.")
+    "map options to termcolor/ariadne one-to-one."
+    " ADDED LATER: R3-BACKEND-SOURCES: the slots of get_backend are fed from the command line and the parsed config file respectively; R4 the emitted file name is injective in the module path; R6 text coloured by penne itself takes its colour from the filtered Colors; R7 the output path may be missing for the two reviewed reasons only.")
 
 SO = "alpha::stdout::StdOut::"
 
